@@ -134,6 +134,8 @@ def parse_run(out):
     hist = []
     open_inv = {}
     events = []
+    trace = []        # EV and AC (data access) lines in order
+    arrs0 = []
     idx = 0
     final = None
     flags = dict(deadlock=False, livelock=False, locks_free=None)
@@ -150,7 +152,12 @@ def parse_run(out):
             idx += 1
         elif tk[0] == 'EV':
             events.append((int(tk[1]), tk[2:]))
+            trace.append((int(tk[1]), tk[2:]))
             idx += 1
+        elif tk[0] == 'AC':
+            trace.append((int(tk[1]), ['ACC'] + tk[2:]))
+        elif tk[0] == 'ARRS':
+            arrs0 = [int(x) for x in tk[1:]]
         elif tk[0] == 'CONTENTS':
             final = {}
             dup = False
@@ -171,7 +178,7 @@ def parse_run(out):
         elif tk[0] == 'FINAL':
             flags['final_line'] = ln
     pending = [dict(tid=t, op=op, res=None, inv=i0, ret=None) for t, (op, i0) in open_inv.items()]
-    return dict(events=events, hist=hist, pending=pending, final=final, flags=flags)
+    return dict(events=events, hist=hist, pending=pending, final=final, flags=flags, trace=trace, arrs0=arrs0)
 
 def linearize(init, hist, final):
     """DFS over real-time-consistent orders in which a locked section is not interleaved with other
@@ -252,6 +259,85 @@ def lock_list_races(events):
                 if wt != t and not all(x <= y for x, y in zip(wvc, vc[t])):
                     races.append((widx, idx, wt, t, k))
     return races
+
+MEMDRV = os.path.join(os.path.dirname(DRV), 'mem_driver')
+
+def mem_check(trace, arrs0, lbits):
+    """the run as an execution of the happens-before model (coq/MemDefs.v): lock acquisitions / releases,
+    decrements of the pending-stripes counter and the bucket accesses the guarded hook reports; the extracted
+    detector decides (a) lock well-formedness, (b) every bucket access is made under the stripe lock of
+    that bucket in the lock array current at that moment (premise of MemModel.lock_protected_race_free),
+    (c) no two conflicting accesses are unordered by happens-before under the memory orders of the source."""
+    kmax = 1 << lbits
+    sizes = list(arrs0)
+    lock_id, loc_id, gloc_id = {}, {}, {}
+    def lid(a, l): return lock_id.setdefault((a, l), len(lock_id))
+    phys, gen, prot = [], [], {}
+    desc = []
+    old_seen = set()
+    nacc = 0
+    freeing = None     # thread currently inside clear_and_deallocate of the superseded array
+    for (t, tk) in trace:
+        k = tk[0]
+        line = None
+        if freeing is not None and not (t == freeing and k == 'ACC' and tk[1] == '1'):
+            freeing = None
+        if k == 'LOCKED': line = 'T %d %d' % (t, lid(int(tk[1]), int(tk[2])))
+        elif k == 'UNLOCK': line = 'C %d %d' % (t, lid(int(tk[1]), int(tk[2])))
+        elif k == 'EMPLACE':
+            a = len(sizes); sizes.append(int(tk[1]))
+            for l in range(int(tk[1])):
+                ln = 'T %d %d' % (t, lid(a, l)); phys.append(ln); gen.append(ln); desc.append((t, ['created-locked', a, l]))
+            continue
+        elif k == 'ACC' and tk[1] == 'DEC': line = 'D %d' % t
+        elif k == 'ACC' and tk[1] == 'FREEOLD':
+            for i in sorted(old_seen):
+                x = loc_id.setdefault((1, i), len(loc_id))
+                phys.append('W %d %d' % (t, x)); desc.append((t, ['free-old-array', i]))
+                gen.append('#')
+            freeing = t
+            continue
+        elif k == 'ACC':
+            which, i, w = int(tk[1]), int(tk[2]), int(tk[3])
+            if freeing == t and which == 1:
+                # destruction of the moved-from elements of the superseded array by the thread whose decrement was
+                # the last: ordered after every migration by the acq_rel decrements (MemModel.last_decrement_frees_safely),
+                # not by a stripe lock
+                x = loc_id.setdefault((1, i), len(loc_id))
+                phys.append('W %d %d' % (t, x)); gen.append('#'); desc.append((t, ['free-old-array', i]))
+                continue
+            nacc += 1
+            if which == 1: old_seen.add(i)
+            a = len(sizes) - 1
+            l = i & (kmax - 1)
+            x = loc_id.setdefault((which, i), len(loc_id))
+            gx = gloc_id.setdefault((a, which, i), len(gloc_id))
+            prot[gx] = lid(a, l) if l < sizes[a] else 999999
+            phys.append('%s %d %d' % ('W' if w else 'R', t, x))
+            gen.append('%s %d %d' % ('W' if w else 'R', t, gx))
+            desc.append((t, ['bucket', 'old' if which else 'cur', i, 'write' if w else 'access', 'array', a, 'stripe', l]))
+            continue
+        if line is None: continue
+        phys.append(line); gen.append(line); desc.append((t, tk))
+    res = dict(naccess=nacc, nevents=len(phys))
+    if nacc == 0: return res
+    gen2 = [g for g in gen if g != '#']
+    gdesc = [d for g, d in zip(gen, desc) if g != '#']
+    inp = '\n'.join(gen2 + ['P %d %d' % (x, l) for x, l in prot.items()]) + '\n'
+    r = subprocess.run([MEMDRV, '--prot-only'], input=inp, capture_output=True, text=True, timeout=300)
+    for ln in r.stdout.split('\n'):
+        tk = ln.split()
+        if tk[:1] == ['PROT'] and tk[1] == 'false':
+            j = int(tk[2]); res['unprotected'] = (j, gdesc[j] if j < len(gdesc) else None)
+        if tk[:1] == ['ORDERS']: res['orders'] = ln
+    r = subprocess.run([MEMDRV], input='\n'.join(phys) + '\n', capture_output=True, text=True, timeout=600)
+    for ln in r.stdout.split('\n'):
+        tk = ln.split()
+        if tk[:1] == ['RACES'] and int(tk[1]) > 0:
+            i, j = int(tk[2]), int(tk[3])
+            res['race'] = (int(tk[1]), desc[i], desc[j])
+        if tk[:1] == ['WF']: res['wf'] = (tk[1] == 'true')
+    return res
 
 def seq_script_for(order, hist, cfgline, keylines, pre):
     """sequential script realising a linearization, for confirmation by the extracted model"""
@@ -363,6 +449,18 @@ def run_one(args):
     races = lock_list_races(run['events'])
     if races:
         res['known'].append(('C03', 'lock-list-tail-race', 'unsynchronised read of the lock list (%s) concurrent with emplace_back: events %s' % (races[0][4], races[0][:2])))
+    # data accesses against the happens-before model (extracted MemDefs.v)
+    if os.environ.get('VERIF_T2_MEM', '1') == '1':
+        lb = int(re.search(r'^cfg (\d+) (\d+)', script, flags=re.M).group(2))
+        mc = mem_check(run['trace'], run['arrs0'], lb)
+        res['mem'] = dict(naccess=mc.get('naccess', 0), orders=mc.get('orders'))
+        if mc.get('unprotected'):
+            j, d = mc['unprotected']
+            res['problems'].append(('C03', 'unprotected access: thread %s touches %s without holding the stripe lock of that bucket in the current lock array (event %d of the execution)' % (d[0] if d else '?', ' '.join(map(str, d[1])) if d else '?', j)))
+        if mc.get('race'):
+            n, a, b = mc['race']
+            res['problems'].append(('C03', 'data race: %d pair(s) of conflicting accesses unordered by happens-before under the memory orders of the source (%s), e.g. thread %s %s / thread %s %s' % (
+                n, mc.get('orders'), a[0], ' '.join(map(str, a[1])), b[0], ' '.join(map(str, b[1])))))
     # pre ops and initial contents
     pre = [l.split()[1:] for l in script.split('\n') if l.startswith('pre ')]
     init = fl.get('init', {})
